@@ -319,8 +319,9 @@ def check_behaviour(ctx, case, table=None):
             raise MachineryError("the contents %r of the matrix are not told apart by the forward map for the pair (%d, %d)" % (hits, d, r))
         return (hits[0] if hits else None), Fw
 
-    def read_outs(o, with_matrix, ab):
-        """all comparisons on object o (and on the transposed model the user holds of it)"""
+    def read_outs(o, with_matrix, ab, last=False):
+        """all comparisons on object o (and on the transposed model the user holds of it; ITS get_matrix() is asked for at the
+        end of the behaviour only - the specification has no such action in between)"""
         d, r = pairs[o]
         K.others = ()
         K.cands = cands()
@@ -354,7 +355,7 @@ def check_behaviour(ctx, case, table=None):
             if T is not None:
                 Tf = K.fwd_adj(T, built, e, d, r, transposed=not transposed)
                 K.matrix_of(T, built, e, d, r, None, transposed=not transposed, Tf=None if transposed else Tf)
-            if with_matrix:
+            if (last if transposed else with_matrix):
                 K.matrix_of(obj, "T_" if transposed else "get_", e, d, r, None, transposed=transposed, Tf=Ad if transposed else None)
 
     def touch(o):
@@ -375,7 +376,7 @@ def check_behaviour(ctx, case, table=None):
         if last or prefix not in seen:
             seen.add(prefix)
             for q in qs:
-                read_outs(q, last or q in asked, ab[q - 1] if ab else None)
+                read_outs(q, last or q in asked, ab[q - 1] if ab else None, last)
         else:
             for q in qs:
                 touch(q)
@@ -533,8 +534,8 @@ def run_edit(ctx, lin):
         raise MachineryError("no LinEval configuration to cross-check the table of ModelGeomEdit against")
     behs.sort(key=beh_key)
     total = len(behs)
-    cap = 12000
-    if total > cap:
+    cap = 8000
+    if total > cap:       # thorough tier: a seeded sample
         rnd = random.Random(ctx.seed + 2)
         behs = sorted(rnd.sample(behs, cap), key=beh_key)
     for b in behs:
